@@ -158,6 +158,47 @@ def corpus_cases(name):
     return out
 
 
+# ------------------------------------------------------------------ signatures of the known findings (input AST only)
+def _walk(node, f):
+    if isinstance(node, list):
+        f(node)
+        for x in node:
+            _walk(x, f)
+
+
+def sig_F53c02(ast_line, real, ev):
+    """some identifier is bound by a bare binder more than once AND is read somewhere: the shape
+    of "re-binding a name that has a recorded narrowing" (`t = [4], t = t.0, t { =4 => .. }`)"""
+    try:
+        ast = sexpr.parse(ast_line)
+    except Exception:
+        return False
+    binders, reads = collections.Counter(), set()
+
+    def visit(n):
+        if n and n[0] == "MIdentifier" and len(n) == 2:
+            binders[n[1]] += 1
+        if n and n[0] == "AccessT" and len(n) >= 2 and isinstance(n[1], list) and n[1] and n[1][0] == "Identifier":
+            reads.add(n[1][1])
+    _walk(ast, visit)
+    return any(c >= 2 and x in reads for x, c in binders.items())
+
+
+def sig_F64c02(ast_line, real, ev):
+    """an UNNAMED star pattern, and one side reports an undefined variable"""
+    return "(MStar -)" in ast_line and (real == "(err VariableUndefined)" or ev.startswith("(err stuck 1)"))
+
+
+SIGNATURES = [("F64c02", sig_F64c02), ("F53c02", sig_F53c02)]
+
+
+def known_finding_of(ast_line, real, ev):
+    for fid, sig in SIGNATURES:
+        if sig(ast_line, real, ev):
+            return fid
+    return None
+
+
 # ------------------------------------------------------------------ shrinking (statement / branch / field level)
 def _groups(src):
     out = []
@@ -306,14 +347,14 @@ def run(ctx):
     # ---------------------------------------------------------------- sources
     suite = suite_pairs()
     n_suite_total = len(suite)
-    cap = ctx.n(700, 10**9)
+    cap = ctx.n(800, 10**9)
     if len(suite) > cap:
         idx = sorted(ctx.rng.sample(range(len(suite)), cap))
         suite = [suite[i] for i in idx]
     spec_blocks = [(o, s, None) for o, s in testsrc.spec_examples()]
-    corpus = corpus_cases("c02_spec.txt") + corpus_cases("c02_probes.txt")
+    corpus = corpus_cases("c02_spec.txt") + corpus_cases("c02_probes.txt") + corpus_cases("c02_known.txt")
     gstats = {}
-    ngen = ctx.n(450, 14000)
+    ngen = ctx.n(500, 8000)
     gen = [("gen:%d" % i, c02gen.generate(ctx.rng, gstats), None) for i in range(ngen)]
 
     cases = [("corpus",) + c for c in corpus] + [("suite",) + c for c in suite] + \
@@ -333,6 +374,8 @@ def run(ctx):
     distinct = set()
     samples = []
     disagreements = []
+    known_hits = collections.Counter()
+    expected_mismatch = []
     for key, (c, (ast, real, ev, st)) in results.items():
         kind, origin, src, exp = c
         cat = classify(real, ev)
@@ -371,12 +414,22 @@ def run(ctx):
                     # both sides agree with each other but not with the expectation: only a
                     # formatting difference of the harness is possible; recorded, not a violation
                     third["both-differ-from-expected"] += 1
+                    expected_mismatch.append({"origin": origin, "expected": exp, "printed": pr})
                 if (not okr or not oke) and cat != "DISAGREE" and cat != "agree":
                     disagreements.append((c, real, ev, "expected %r; real prints %r, evaluator prints %r" % (exp, pr, pe)))
-        if cat == "DISAGREE":
-            disagreements.append((c, real, ev, "evaluator and real VM differ"))
-        if cat == "real-panic":
-            disagreements.append((c, real, ev, "the real compiler/VM panicked"))
+        if cat in ("DISAGREE", "real-panic"):
+            why = "evaluator and real VM differ" if cat == "DISAGREE" else "the real compiler/VM panicked"
+            fid = known_finding_of(ast, real, ev)
+            if fid is not None:
+                # table-driven by known_findings.json: a `known` entry turns this into a
+                # KNOWN-FINDING line, a `fixed` (or missing) one leaves it a violation
+                path = ctx.violation({"kind": "impl-violation", "finding": fid, "what": why, "origin": origin,
+                                      "source": src, "real": real, "evaluator": ev}, finding_key=fid)
+                known_hits[fid] += 1
+                if path is None:
+                    continue
+            else:
+                disagreements.append((c, real, ev, why))
 
     # ---------------------------------------------------------------- triage of disagreements
     for c, real, ev, why in disagreements[:6]:
@@ -420,7 +473,9 @@ def run(ctx):
     cov["traces_validated_against_impl"] = compared
     cov["disagreements_checked"] = compared
     cov["disagreements"] = tot["DISAGREE"]
+    cov["disagreements_matching_a_known_finding"] = dict(known_hits)
     cov["three_way_with_expected_values"] = dict(third)
+    cov["agreeing_but_printed_differently_from_expected"] = expected_mismatch[:10]
     cov["ast_node_kinds_exercised"] = dict(node_hist.most_common())
     cov["agreeing_programs_by_path"] = dict(path_stats)
     cov["generator_features"] = dict(sorted(gstats.items()))
